@@ -228,3 +228,39 @@ def percent_format(template: SSeq, args):
     if args:
         raise TypeError("not all arguments converted during string formatting")
     return out
+
+
+def seq_to_float(s):
+    """float(text) for texts of the shape [+-]?digits[.digits] (what werkzeug's q-value
+    regex admits); any other feasible shape is reported Unsupported"""
+    from .core import SReal
+
+    s = lift(s).strip()
+    c = ctx()
+    es = s.celems()
+    i = 0
+    neg = False
+    if es and c.decide(z3.Or(es[0] == ord("-"), es[0] == ord("+"))):
+        neg = c.decide(es[0] == ord("-"))
+        i = 1
+    whole = z3.RealVal(0)
+    ndig = 0
+    while i < len(es) and c.decide(z3.And(z3.UGE(es[i], 48), z3.ULE(es[i], 57))):
+        whole = whole * 10 + z3.ToReal(z3.BV2Int(es[i]) - 48)
+        i += 1
+        ndig += 1
+    frac = z3.RealVal(0)
+    if i < len(es) and c.decide(es[i] == ord(".")):
+        i += 1
+        scale = 10
+        fd = 0
+        while i < len(es) and c.decide(z3.And(z3.UGE(es[i], 48), z3.ULE(es[i], 57))):
+            frac = frac + z3.ToReal(z3.BV2Int(es[i]) - 48) / scale
+            scale *= 10
+            i += 1
+            fd += 1
+        ndig += fd
+    if i != len(es) or ndig == 0:
+        raise Unsupported("float() of text outside [+-]digits[.digits]")
+    v = whole + frac
+    return SReal(z3.simplify(-v if neg else v))
